@@ -1230,22 +1230,97 @@ def _exhaustive_sizes(ctx, reqs, pending):
                           'omit_empty_frames in {False, True} (random content): PixelData bytes, frames and read-back')
 
 
-def run(ctx):
+def streams(ctx):
+    """The named small streams of a run, in order: thunks `(ctx, reqs, pending)` (the generated cases are sharded in `run`)."""
+    def corpus(sub, reqs, pending):
+        files = sorted(__import__('glob').glob(os.path.join(os.path.dirname(__file__), '..', '..', 'corpus', 'C01', '*.json')))
+        for f in files:
+            run_case(sub, json.load(open(f)), reqs, pending)
+    out = [('corpus', corpus), ('helpers', _helpers)]
+    if not ctx.search_mode:
+        out.append(('sizes', _exhaustive_sizes))
+    out.append(('many', _many_segments))
+    return out
+
+
+SHARDS = 4          # fixed (not the CPU count): which shard runs a case is a function of its index only
+_SHARD_JOBS = None
+
+
+def _shard_main(k):
+    """Child process k: run its share of the streams on a fresh Ctx, ask the model, compare; hand the counters back."""
+    global _POOL
+    _POOL = None                                    # a thread pool does not survive fork()
     import warnings
     warnings.simplefilter('ignore')
+    parent, jobs = _SHARD_JOBS
+    sub = type(parent)(parent.prop, parent.tier, parent.seed, parent.scale, parent.driver)
+    sub.search_mode = parent.search_mode
+    sub.model_available = parent.model_available
     reqs, pending = [], []
-    corpus = sorted(__import__('glob').glob(os.path.join(os.path.dirname(__file__), '..', '..', 'corpus', 'C01', '*.json')))
-    for f in corpus:
-        c = json.load(open(f))
-        run_case(ctx, c, reqs, pending)
-    _helpers(ctx, reqs, pending)
-    if not ctx.search_mode:
-        _exhaustive_sizes(ctx, reqs, pending)
-    _many_segments(ctx, reqs, pending)
-    for idx in range(ctx.n(480, 3600) * _drift_factor(ctx)):
-        c = gen_case(ctx, idx)
-        run_case(ctx, c, reqs, pending)
-    _compare(ctx, reqs, pending)
+    try:
+        for thunk in jobs[k]:
+            thunk(sub, reqs, pending)
+        _compare(sub, reqs, pending)
+        err = None
+    except Exception:  # noqa: BLE001
+        import traceback
+        err = traceback.format_exc()
+    return {'err': err, 'evaluations': sub.evaluations, 'nontrivial': sub.nontrivial,
+            'hists': {a: dict(b) for a, b in sub.hists.items()}, 'samples': sub.samples, 'failures': sub.failures,
+            'disagreements': sub.disagreements, 'l2': sub.l2_disagreements, 'notes': sub.notes,
+            'exhaustive': sub.exhaustive, 'model_available': sub.model_available,
+            'calls': sub.driver.calls, 'requests': sub.driver.requests}
+
+
+def _merge(ctx, res):
+    ctx.evaluations += res['evaluations']
+    ctx.nontrivial |= res['nontrivial']
+    for a, b in res['hists'].items():
+        for key, n in b.items():
+            ctx.hists[a][key] += n
+    ctx.samples += res['samples'][:max(0, 6 - len(ctx.samples))]
+    ctx.failures += res['failures'][:max(0, 200 - len(ctx.failures))]
+    ctx.disagreements += res['disagreements'][:max(0, 50 - len(ctx.disagreements))]
+    ctx.l2_disagreements += res['l2'][:max(0, 50 - len(ctx.l2_disagreements))]
+    for s in res['notes']:
+        if s not in ctx.notes:
+            ctx.note(s)
+    ctx.exhaustive += [e for e in res['exhaustive'] if e not in ctx.exhaustive]
+    ctx.model_available = ctx.model_available and res['model_available']
+    ctx.driver.calls += res['calls']
+    ctx.driver.requests += res['requests']
+
+
+def run(ctx):
+    """The streams are spread over SHARDS + 1 forked processes (shard 0: corpus, helpers, size grid, many segments, tiled;
+    shard 1 + idx % SHARDS: the generated cases).  Every case is a pure function of (seed, stream, index) -- the sharding
+    only decides which process evaluates it; HDV_SHARDS=0 runs everything in this process."""
+    global _SHARD_JOBS
+    import warnings
+    warnings.simplefilter('ignore')
+    named = streams(ctx)
+    n_cases = ctx.n(480, 3600) * _drift_factor(ctx)
+
+    def case_job(k):
+        def job(sub, reqs, pending):
+            for idx in range(k, n_cases, SHARDS):
+                run_case(sub, gen_case(sub, idx), reqs, pending)
+        return job
+    jobs = [[thunk for _n, thunk in named]] + [[case_job(k)] for k in range(SHARDS)]
+    _SHARD_JOBS = (ctx, jobs)
+    if os.environ.get('HDV_SHARDS') == '0':
+        results = [_shard_main(k) for k in range(len(jobs))]
+    else:
+        import multiprocessing
+        from concurrent.futures import ProcessPoolExecutor
+        with ProcessPoolExecutor(len(jobs), mp_context=multiprocessing.get_context('fork')) as ex:
+            results = list(ex.map(_shard_main, range(len(jobs))))
+    for res in results:
+        _merge(ctx, res)
+    errs = [r['err'] for r in results if r['err']]
+    if errs:
+        raise RuntimeError('shard crashed:\n' + errs[0])
     _after_compare(ctx)
 
 
